@@ -1,5 +1,5 @@
 """C15 - secret sharing and distributed key generation are consistent"""
-import vlib, dkg_common, tracecheck
+import vlib, dkg_common, tracecheck, parts, gjkr_common
 PID = "C15"
 def run(tier, seed):
     ck = vlib.Check(PID, tier, seed, "model_checking")
@@ -12,6 +12,11 @@ def run(tier, seed):
     ck.add_tlc("MC_VSS", r)
     if r.violation:
         ck.violation("model:MC_VSS", "VSS.tla violates the property: %s" % r.violation, replay_path=os.path.join(vlib.OUT, "tlc", "VSS-MC_VSS.cfg.log"))
+    # protocol-level model of the GJKR key generation (GJKR.tla: phases, complaints, disqualification, extraction, reconstruction;
+    # exhaustive for n=3, t=1 with every party as the deviating one) and message-level validation of real runs (GJKRTrace.tla),
+    # side by side with the result-level judgement below
+    import concurrent.futures as cf
+    gj_pool = cf.ThreadPoolExecutor(max_workers=1); gj = gj_pool.submit(lambda: gjkr_common.run(ck, PID, tier, seed))
     dkg_common.run_trigger(ck, PID)
     D = dkg_common.directed
     # scripted deviations every run repeats: a party that is honest until the share refresh and then deals a "zero" sharing with a
@@ -29,16 +34,17 @@ def run(tier, seed):
     dkg_common.run_proto(ck, PID, "dkg", 48 if q else 1200, seed, 5 if q else 7)
     dkg_common.run_proto(ck, PID, "vss", 64 if q else 1600, seed, 5 if q else 7)
     dkg_common.run_proto(ck, PID, "dss", 16 if q else 400, seed, 4 if q else 6)
+    gj.result(); gj_pool.shutdown()
     ck.cov["rule"] = ("n real party objects per execution in one process under the deterministic simulator (seeded schedules, virtual "
                       "clock), faulty parties: library switch / silent / one tampered private share; DKGTrace.tla checks agreement on "
                       "QUAL and y, share vs verification values, every (t+1)-subset of good shares interpolating to one secret with "
                       "image y, reconstruction, refresh; an execution is non-trivial when at least one party completed")
     ck.assumptions += ["synchrony: every protocol phase is started together (barrier) and message hand-over is instantaneous; time-outs fire only when all parties wait",
                        "groups with p <= 46340; n <= 5 (quick) / 7 (thorough)",
-                       "no exhaustive protocol-level model of the complaint phases (DESIGN.md: not built); the spec is the oracle for the results"]
+                       "protocol-level models: Pedersen-VSS (VSS.tla) and GJKR New-DKG (GJKR.tla, reliable broadcast abstracted to consistent FIFO streams); CGJKR RVSS/ZVSS/DSS: the spec is the oracle for the results"]
     return ck.finish()
 def replay(path, seed):
     ck = vlib.Check(PID, "quick", seed, "model_checking")
-    tracecheck.validate(ck, PID, "replay", "DKGTrace", dkg_common.trace_cfg(PID),
-                        tracecheck.split_executions(path), chunks=1)
+    parts.replay_dispatch(ck, PID, path, lambda: tracecheck.validate(ck, PID, "replay", "DKGTrace", dkg_common.trace_cfg(PID),
+                        tracecheck.split_executions(path), chunks=1))
     return ck.finish()
